@@ -126,6 +126,7 @@ pub fn tr_method(cx: &mut Ctx, m: &ExprMethodCall, expected: Option<&Ty>) -> R<T
                 Ok(Tr::new(format!("({} ^ (Int.toNat {}))", recv.s, a.s), rty.clone()))
             }
             "abs" => Ok(Tr::new(format!("((Int.natAbs {} : Nat) : Int)", recv.s), rty.clone())),
+            "get" if m.args.is_empty() => Ok(recv.clone()),
             _ => Err(format!("int method .{}", name)),
         },
         Ty::Opt(t) => {
@@ -175,6 +176,10 @@ pub fn tr_method(cx: &mut Ctx, m: &ExprMethodCall, expected: Option<&Ty>) -> R<T
                 "is_ok" => Ok(Tr::new(format!("(Except.isOk {})", recv.s), Ty::Bool)),
                 "is_err" => Ok(Tr::prop(format!("(¬ (Except.isOk {} = true))", recv.s))),
                 "ok" => Ok(Tr::new(format!("(exceptToOption {})", recv.s), Ty::Opt(Box::new(t)))),
+                "and_then" => {
+                    let (f, rt) = tr_closure(cx, arg(m, 0)?, &[t], expected)?;
+                    Ok(Tr::new(format!("(match {} with | .ok v_ => {} v_ | .error e_ => .error e_)", recv.s, f), rt))
+                }
                 "map" => {
                     let (f, rt) = tr_closure(cx, arg(m, 0)?, &[t], None)?;
                     Ok(Tr::new(format!("(exceptMap {} {})", f, recv.s), Ty::Res(Box::new(rt), Box::new(e))))
